@@ -618,9 +618,19 @@ def PState.closeSection (p : PState) : PState :=
   | some s => { p with done := p.done ++ [s], cur := none }
   | none => p
 
+/-- `SECTCRE = \[(?P<header>.+)\]` matched at the start of the stripped line: the header is what stands
+between the opening bracket and the *last* closing bracket (`.+` is greedy), and it is not empty -/
+def sectionName? (stripped : List Char) : Option (List Char) :=
+  match stripped with
+  | '[' :: body =>
+    match body.reverse.dropWhile (· ≠ ']') with
+    | _ :: nameRev => if nameRev.isEmpty then none else some nameRev.reverse
+    | [] => none
+  | _ => none
+
 /-- a section header line `[name]` -/
-def sectionLine (p : PState) (stripped : List Char) (ind : Nat) : Except IniErr PState :=
-  let name := String.ofList ((stripped.drop 1).takeWhile (· ≠ ']'))
+def sectionLine (p : PState) (name : List Char) (ind : Nat) : Except IniErr PState :=
+  let name := String.ofList name
   let p := p.closeSection
   if (p.done.map (·.1)).contains name then .error .duplicateSection
   else .ok { p with cur := some (name, []), opt := none, indent := ind }
@@ -638,8 +648,9 @@ def optionLine (lower : Bool) (p : PState) (stripped : List Char) (ind : Nat) : 
 
 /-- a line that is not a continuation: section header or option -/
 def headerLine (lower : Bool) (p : PState) (stripped : List Char) (ind : Nat) : Except IniErr PState :=
-  if stripped.head? = some '[' && stripped.contains ']' then sectionLine p stripped ind
-  else optionLine lower p stripped ind
+  match sectionName? stripped with
+  | some name => sectionLine p name ind
+  | none => optionLine lower p stripped ind
 
 /-- one line of `RawConfigParser._read` -/
 def readLine (lower : Bool) (p : PState) (line : List Char) : Except IniErr PState :=
@@ -657,6 +668,10 @@ def readLine (lower : Bool) (p : PState) (line : List Char) : Except IniErr PSta
     | some _, some ⟨k, some vs⟩ =>
       if ind > p.indent then .ok { p with opt := some ⟨k, some (vs ++ [stripped])⟩ }
       else headerLine lower p stripped ind
+    | some _, some ⟨_, none⟩ =>
+      -- `cursect[optname].append(value)` on the `None` of a valueless option: AttributeError
+      -- (MultilineContinuationError from Python 3.13 on); the harness maps both to `ini`
+      if ind > p.indent then .error .parsing else headerLine lower p stripped ind
     | _, _ => headerLine lower p stripped ind
 
 def readIniRaw (lower : Bool) (text : String) : Except IniErr (List (String × List RawOpt)) :=
